@@ -38,6 +38,25 @@ def P.wfList {N : Type} : List (P N) → Bool
   | p :: ps => P.wf 3 p && P.wfList ps
 end
 
+def Val.isNull {N : Type} : Val N → Bool
+  | .null => true
+  | _ => false
+
+mutual
+/-- no literal is Null (the grammar has number and string literals only) -/
+def P.noNull {N : Type} : P N → Bool
+  | .lit v => !v.isNull
+  | .concat args => P.noNullList args
+  | .contains a b => P.noNull a && P.noNull b
+  | .nspace1 a => P.noNull a
+  | .group p => P.noNull p
+  | .bin _ l r => P.noNull l && P.noNull r
+  | _ => true
+def P.noNullList {N : Type} : List (P N) → Bool
+  | [] => true
+  | p :: ps => P.noNull p && P.noNullList ps
+end
+
 mutual
 /-- The flat body-element list of a syntax tree: in-order, groups and arguments nested. -/
 def flatten {N : Type} : P N → List (BE N)
